@@ -172,7 +172,7 @@ static uint64_t gen_instant() {
 
 static Op gen_fmt() {
     uint64_t ms = chance(30) ? one_of({0, 1, 499, 500, 999}) : pick(0, 999);
-    return mkop(OP_FMT, {gen_instant(), ms, pick(0, 1), chance(50) ? gen_instant() : pick(0, (uint64_t)MAX_T), pick(0, 1), pick(0, 1)});
+    return mkop(OP_FMT, {gen_instant(), ms, pick(0, 1), chance(50) ? gen_instant() : pick(0, (uint64_t)MAX_T), pick(0, 7), pick(0, 1)});
 }
 static Op gen_parse() {
     uint64_t t = gen_instant();
@@ -257,18 +257,24 @@ static void expect_parse(const std::string &text, int lib_fmt, bool use_cursor, 
                   what, text.c_str(), p.dt.milliseconds);
 }
 
+static size_t g_prefix_len = 0; // bytes already in the output buffer (byte buffers are appended to): set per operation
 static std::string lib_format(const struct aws_date_time &dt, int kind, bool full, bool exact_fit, const std::string &ref) {
-    size_t cap = exact_fit ? ref.size() + 1 : (size_t)AWS_DATE_TIME_STR_MAX_LEN; // strftime needs room for its terminator
+    size_t pre = g_prefix_len;
+    size_t cap = pre + (exact_fit ? ref.size() + 1 : (size_t)AWS_DATE_TIME_STR_MAX_LEN); // strftime needs room for its terminator
     std::unique_ptr<uint8_t[]> mem(new uint8_t[cap]);
     memset(mem.get(), 0x7e, cap);
+    for (size_t i = 0; i < pre; i++) mem[i] = (uint8_t)('a' + i % 26);
     struct aws_byte_buf out = aws_byte_buf_from_empty_array(mem.get(), cap);
+    out.len = pre;
     aws_reset_error();
     int rc = full ? aws_date_time_to_utc_time_str(&dt, (enum aws_date_format)kind, &out)
                   : aws_date_time_to_utc_time_short_str(&dt, (enum aws_date_format)kind, &out);
-    PBT_CHECK(rc == AWS_OP_SUCCESS, "formatting t=%lld as %s %s into %zu bytes failed (error %d); reference text \"%s\"", (long long)dt.timestamp,
-              KNAME[kind], full ? "full" : "short", cap, aws_last_error(), ref.c_str());
-    PBT_CHECK(out.buffer == mem.get() && out.capacity == cap && out.len <= cap, "formatter changed the buffer descriptor");
-    return std::string((const char *)out.buffer, out.len);
+    PBT_CHECK(rc == AWS_OP_SUCCESS, "formatting t=%lld as %s %s into %zu free bytes failed (error %d); reference text \"%s\"", (long long)dt.timestamp,
+              KNAME[kind], full ? "full" : "short", cap - pre, aws_last_error(), ref.c_str());
+    PBT_CHECK(out.buffer == mem.get() && out.capacity == cap && out.len <= cap && out.len >= pre, "formatter changed the buffer descriptor");
+    for (size_t i = 0; i < pre; i++)
+        PBT_CHECK(mem[i] == (uint8_t)('a' + i % 26), "formatting into a buffer that already holds %zu bytes overwrote byte %zu of them", pre, i);
+    return std::string((const char *)out.buffer + pre, out.len - pre);
 }
 
 static void rfc822_short_parse_back(const std::string &text, int64_t t, bool use_cursor) {
@@ -285,6 +291,9 @@ static void run_fmt(const Op &op, Ctx &ctx, bool only_rfc822_short) {
     bool init_secs = op.arg(2) % 2 == 1;
     int64_t t2 = (int64_t)(op.arg(3) % (uint64_t)(MAX_T + 1));
     bool exact_fit = op.arg(4) % 2 == 1, use_cursor = op.arg(5) % 2 == 1;
+    static const size_t PRE[] = {0, 0, 7, 31};
+    g_prefix_len = PRE[op.arg(4) / 2 % 4]; // the text is appended behind what the buffer already holds
+    if (g_prefix_len) ctx.tag("output_buffer_not_empty");
     Civil c = civil_of(t);
 
     struct aws_date_time dt;
